@@ -52,6 +52,10 @@ func GenMDeliver(g *vh.Gen) {
 				g.Emit("mdeliver", b, vh.I(n), vh.I(f), vh.I(1+g.Intn(3)))
 			}
 		}
+		// many recipients, the failing one far from the first
+		for _, nf := range [][2]int{{12, 7}, {40, 39}, {40, 40}, {100, 64}} {
+			g.Emit("mdeliver", b, vh.I(nf[0]), vh.I(nf[1]), "1")
+		}
 	}
 }
 
@@ -160,7 +164,7 @@ func ExecMDeliver(in []string) []string {
 func GenSDeliver(g *vh.Gen) {
 	for _, b := range []string{"mem", "file"} {
 		for v := 0; v <= 2; v++ {
-			for _, k := range []int{2, 3} {
+			for _, k := range []int{2, 3, 10, 40} {
 				g.Emit("sdeliver", b, vh.I(k), vh.I(v), vh.I(1+g.Intn(2)))
 			}
 		}
